@@ -27,6 +27,7 @@ func init() {
 			{ID: "C08.R8", Floor: 8, Run: c03r3, Text: "table selection siblings (= C03.R3): the table lists batch operations work on are selected under the same has-relation / active / matches conditions as query iteration"},
 			{ID: "C08.R9", Floor: 1, Run: batchRowFromStart, Text: "rows of a batch table are offset by the recorded StartIndex (= C03.R9)"},
 			{ID: "C08.R10", Floor: 4, Run: c01r3, Text: "column copies of the batch movers read the moved entity's own source row (= C01.R3)"},
+			{ID: "C08.R11", Floor: 20, Run: flagArgsNotComputed, Text: "option flags are not computed from values: at every call of an internal function with an (ID, bool) parameter pair the bool argument is a constant, a forwarded bool parameter, a stored flag or a presence test of a variadic argument - never derived from the value (the zero ID / zero entity are valid values)"},
 		},
 	})
 }
